@@ -72,6 +72,8 @@ def touched_roots(base_model: Model, model: Model, edits: List[dict]) -> List[tu
     for e in edits:
         if e["edit"] == "E1-new-structure":
             touched_structs.add(e["name"])
+        elif e["edit"] == "E8-override-chain":
+            touched_structs.update([e["mid"], e["leaf"]])
         elif e["edit"] in ("E2-new-property", "E7-remove-optional"):
             touched_structs.add(e["structure"])
         elif e["edit"].startswith("E5"):
